@@ -134,7 +134,7 @@ impl Property for C05 {
         ]
     }
     fn cases(tier: Tier) -> u64 {
-        tier.pick(80_000, 2_000_000)
+        tier.pick(240_000, 2_000_000)
     }
     fn strategy(_tier: Tier) -> BoxedStrategy<Spec> {
         prop_oneof![
